@@ -208,6 +208,37 @@ def segment_stmts(c, fnode):
     return fnode.body[start[0] : end[0]]
 
 
+def _bind_siblings(reg, c, fr):
+    """for a nested function (`outer.inner`): the other functions nested in `outer` are visible as closures and, unless
+    the contract maps them to a callee spec, are executed from their real source"""
+    import ast
+    from .interp import VFunc
+
+    q = c.qualname.split('#')[0]
+    if c.segment:
+        # a segment of `outer` itself: the functions nested in it (defined before the segment) are its closures
+        try:
+            onode = reg.find_node(c.file, q)
+        except LookupError:
+            return
+        for n in onode.body:
+            if isinstance(n, (ast.FunctionDef, ast.AsyncFunctionDef)) and n.name not in fr.locs:
+                fr.locs[n.name] = VFunc(n, fr, f'{q}.{n.name}', module=c.file)
+        return
+    if '.' not in q:
+        return
+    outer = q.rsplit('.', 1)[0]
+    try:
+        onode = reg.find_node(c.file, outer)
+    except LookupError:
+        return
+    if not isinstance(onode, (ast.FunctionDef, ast.AsyncFunctionDef)):
+        return
+    for n in onode.body:
+        if isinstance(n, (ast.FunctionDef, ast.AsyncFunctionDef)) and n.name != q.rsplit('.', 1)[1] and n.name not in fr.locs:
+            fr.locs[n.name] = VFunc(n, fr, f'{outer}.{n.name}', module=c.file)
+
+
 def build_entry(it, c, fnode, fr):
     """parameters, ghosts, requires, old-snapshot, lets"""
     ctx = it.ctx
@@ -243,6 +274,8 @@ def build_entry(it, c, fnode, fr):
     for r in c.requires:
         ctx.assume(it.spec_eval(r, fr))
     fr.locs['old!'] = _snapshot({k: v for k, v in fr.locs.items() if k != 'old!'})
+    if not c.segment:
+        fr.locs['entry!'] = {n: fr.locs[n] for n in names if n in fr.locs}
     for name, src in c.lets.items():
         fr.locs[name] = it.spec_eval(src, fr)
         fr.locs['old!'][name] = fr.locs[name]
@@ -264,6 +297,11 @@ def exc_args_match(it, e, expected):
 def check_outcome(it, c, fr, outcome, value):
     ctx = it.ctx
     reg = it.registry
+    # in postconditions a PARAMETER name denotes its value at entry (as in JML/Dafny); the possibly rebound local is
+    # `final(name)`. Segment contracts have no parameters: their names are the locals at the end of the segment.
+    entry = fr.locs.get('entry!') or {}
+    if entry:
+        fr = _overlay(fr, entry)
     if c.ghost_final:
         c.ghost_final(it, fr, outcome, value)
     if outcome == 'return':
@@ -310,6 +348,14 @@ def check_outcome(it, c, fr, outcome, value):
             ctx.oblige(f'final:{k}', 'post', it.spec_eval(cl, fr), cl)
 
 
+def _overlay(fr, entry):
+    f2 = Frame(fr.globs, dict(fr.locs), fr.parent, fr.contract, fr.module, fr.qualname)
+    f2.locs['final!'] = dict(fr.locs)
+    for k, v in entry.items():
+        f2.locs[k] = v
+    return f2
+
+
 def _fmt_args(args):
     out = []
     for a in args:
@@ -346,6 +392,7 @@ def verify_function(reg, c, tier='quick', solve=None, max_paths=MAX_PATHS):
         it = Interp(ctx, reg)
         fr = Frame(mod.__dict__, {}, None, c, c.file, c.qualname)
         fr.fnode = fnode
+        _bind_siblings(reg, c, fr)
         outcome, value = None, None
         try:
             build_entry(it, c, fnode, fr)
